@@ -192,4 +192,104 @@ def publicKeyVerify {Key : Type} (sha256 : Bytes → Bytes) (rsaVerify : Key →
     | .err => .ok false
     | .ok encoded => verifySignature sha256 rsaVerify pubKey encoded signature
 
+/-! ### a `PublicKey` value under a history of updates (`yggdrasil/user/pubkey.go`)
+
+  `T` is the type of time stamps (only `Before(time.Now())` is ever asked of them). The value has exactly the
+  three exported fields; there is no other state. -/
+
+/-- `user.PublicKey`: `PubKey = none` is the nil pointer; a non-nil key is carried as its PKIX encoding
+    (what `x509.MarshalPKIXPublicKey` returns for it) -/
+structure PubKeyVal (T : Type) where
+  expiresAt : T
+  pubKey : Option Bytes
+  signature : Bytes
+
+/-- what `x509.ParsePKIXPublicKey` followed by the `.(*rsa.PublicKey)` assertion makes of the key bytes on the wire -/
+inductive KeyParse where
+  | rsa (der : Bytes)
+  | notRsa
+  | bad
+
+/-- a packet whose three fields (`Long`, `ByteArray`, `ByteArray`) could be read -/
+structure PubKeyPacket (T : Type) where
+  expiresAt : T
+  key : KeyParse
+  signature : Bytes
+
+inductive PubKeyStep (T : Type) where
+  | readFrom (p : Option (PubKeyPacket T))     -- `none`: the tuple itself could not be read
+  | setExpiresAt (t : T)
+  | setPubKey (k : Option Bytes)
+  | setSignature (s : Bytes)
+  | verify
+
+/-- `(*PublicKey).ReadFrom`: the time stamp is stored before the key is parsed; a key that does not parse, or is
+    not an RSA key, leaves `PubKey` and `Signature` as they were and returns an error -/
+def pubKeyReadFrom {T : Type} (v : PubKeyVal T) : Option (PubKeyPacket T) → PubKeyVal T × Bool
+  | none => (v, false)
+  | some p =>
+    let v := { v with expiresAt := p.expiresAt }
+    match p.key with
+    | .bad => (v, false)
+    | .notRsa => (v, false)
+    | .rsa der => ({ v with pubKey := some der, signature := p.signature }, true)
+
+/-- the effect of one step on the fields (`Verify` has none) -/
+def pubKeyApply {T : Type} (v : PubKeyVal T) : PubKeyStep T → PubKeyVal T
+  | .readFrom p => (pubKeyReadFrom v p).1
+  | .setExpiresAt t => { v with expiresAt := t }
+  | .setPubKey k => { v with pubKey := k }
+  | .setSignature s => { v with signature := s }
+  | .verify => v
+
+/-- `Verify()` on the fields as they are now -/
+def pubKeyVerifyNow {Key T : Type} (sha256 : Bytes → Bytes) (rsaVerify : Key → Bytes → Bytes → Bool) (pubKey : Key)
+    (expired : T → Bool) (v : PubKeyVal T) : Res Bool :=
+  publicKeyVerify sha256 rsaVerify pubKey (expired v.expiresAt)
+    (match v.pubKey with | none => .panic | some der => .ok der) v.signature
+
+/-- the outcomes of the `Verify` calls of a history, in order, and the final fields -/
+def pubKeyRun {Key T : Type} (sha256 : Bytes → Bytes) (rsaVerify : Key → Bytes → Bytes → Bool) (pubKey : Key)
+    (expired : T → Bool) : PubKeyVal T → List (PubKeyStep T) → List (Res Bool) × PubKeyVal T
+  | v, [] => ([], v)
+  | v, .verify :: rest =>
+    let r := pubKeyVerifyNow sha256 rsaVerify pubKey expired v
+    let (rs, v') := pubKeyRun sha256 rsaVerify pubKey expired v rest
+    (r :: rs, v')
+  | v, st :: rest => pubKeyRun sha256 rsaVerify pubKey expired (pubKeyApply v st) rest
+
+/-! ### the server side of the login handshake (`server/auth/auth.go`: `Encrypt`, `encryptionResponse`) -/
+
+/-- what the scripted peer and the external calls deliver to one run of `Encrypt` -/
+structure HandshakeIn where
+  idOk : Bool                 -- the packet read is `ServerboundLoginKey`
+  scanOk : Bool               -- `p.Scan(&keyBytes, &encryptedVerifyToken)` succeeds
+  token : Res Bool            -- `rsa.DecryptPKCS1v15` of the token: error, or whether it equals the token sent
+  secret : Res Bytes          -- `rsa.DecryptPKCS1v15` of the key bytes: error, or the plaintext (of ANY length)
+  httpOk : Bool               -- the session server answers with a well-formed document
+
+/-- `aes.NewCipher` accepts keys of 16, 24 or 32 bytes -/
+def aesKeyOk (k : Bytes) : Bool := k.length == 16 || k.length == 24 || k.length == 32
+
+/-- `Encrypt` from the encryption response on: the session hash it asks the session server about (if it gets
+    that far) and its outcome. The secret is whatever the peer encrypted — nothing here depends on its length
+    except `aes.NewCipher`. -/
+def serverEncrypt (sha1 : Bytes → Bytes) (publicKey : Bytes) (i : HandshakeIn) : Option String × Res Unit :=
+  if !i.idOk then (none, .err)
+  else if !i.scanOk then (none, .err)
+  else match i.token with
+    | .panic => (none, .panic)
+    | .err => (none, .err)
+    | .ok false => (none, .err)                       -- "verifyToken not match"
+    | .ok true =>
+      match i.secret with
+      | .panic => (none, .panic)
+      | .err => (none, .err)
+      | .ok sharedSecret =>
+        if !aesKeyOk sharedSecret then (none, .err)   -- "load aes encryption key fail"
+        else match authDigestServer sha1 [] sharedSecret publicKey with
+          | .ok hash => (some hash, if i.httpOk then .ok () else .err)   -- "auth servers down"
+          | .err => (none, .err)
+          | .panic => (none, .panic)
+
 end GoMC.Model
